@@ -220,6 +220,6 @@ pub(crate) mod kani_verif {
     h!(c07_hss_sign_l2, 2);
     // @h name=c07_hss_sign_l3 props=C07,C03,C01 tier=thorough kind=proved cfg=w8 timeout=3600 funcs=HssSignature::sign;HssSignature::to_binary_representation contract="same, L=3"
     h!(c07_hss_sign_l3, 3);
-    // @h name=c07_hss_sign_l8 props=C07,C03,C01 tier=thorough kind=proved cfg=w8 timeout=7200 funcs=HssSignature::sign;HssSignature::to_binary_representation contract="same, L=8 (maximum level count)"
+    // @h name=c07_hss_sign_l8 props=C07,C03,C01 tier=extended kind=proved cfg=w8 timeout=7200 funcs=HssSignature::sign;HssSignature::to_binary_representation contract="same, L=8 (maximum level count)"
     h!(c07_hss_sign_l8, 8);
 }
